@@ -356,13 +356,16 @@ inductive ParseResult
   | syntaxError          -- pest reports a parsing error
   | convError (msg : String)   -- `parse_toplevel` returns Err (e.g. integer conversion)
 
-def parse (input : Array UInt8) : ParseResult :=
-  match Peg.parse grammar "file" input with
+def parseWith (g : Grammar) (input : Array UInt8) : ParseResult :=
+  match Peg.parse g "file" input with
   | some [root] =>
     match parseTop { input := input, starts := lineStarts input } root with
     | .ok p => .ok p
     | .error m => .convError m
   | _ => .syntaxError
+
+/-- the parser over the transcribed grammar -/
+def parse (input : Array UInt8) : ParseResult := parseWith grammar input
 
 end Syntax
 end Pdlv
